@@ -113,7 +113,9 @@ NodeOK(tok, xs) ==
   LET ex == SafeExpect(tok, xs) IN
   IF tok.c = "err" THEN ex.err
   ELSE /\ ~ex.err
-       /\ tok.c \in ex.cls
+       \* the expression collector may return any value wrapped in a (new) quantity object or inside an
+       \* unevaluated expression: class "sym" says nothing about the number, only the dimension is judged
+       /\ (tok.c \in ex.cls \/ (tok.k = "e" /\ tok.c = "sym"))
        /\ (ex.free \/ tok.c \in AnyC \/ DimOf(tok.d) = ex.d)
 
 TopN(st, n) == SubSeq(st, Len(st) - n + 1, Len(st))
